@@ -3,9 +3,11 @@ package main
 import (
 	"fmt"
 	"go/ast"
+	"go/token"
 	"go/types"
 	"strings"
 
+	"golang.org/x/tools/go/cfg"
 	"golang.org/x/tools/go/ssa"
 )
 
@@ -441,6 +443,7 @@ func ruleResumePath(c *Ctx) {
 						if len(memFields) == 0 {
 							return true
 						}
+						readBeforeEstablish(c, fmt.Sprintf("%s.stage.%s", name, lbl), fo.Origin(), st)
 						// is the same module state (re)established outside the clauses (before the switch or in the tail)?
 						sw := arm.Switch
 						reestablished := false
@@ -516,4 +519,121 @@ func (f *FuncCFG) recvObj(fd *FuncDecl) types.Object {
 		return nil
 	}
 	return f.Info.Defs[fd.Decl.Recv.List[0].Names[0]]
+}
+
+// readBeforeEstablish: a module method called by a stage establishes in-memory state of the module (fields it
+// writes). A run resumed after a crash enters it with that state unset (start-up returns into the stage machine
+// before the module is initialised), so the method must not read such a field before it has written it.
+func readBeforeEstablish(c *Ctx, keyBase string, fo *types.Func, st *types.Struct) {
+	fd := c.P.DeclOf(fo)
+	if fd == nil || fd.Decl.Body == nil {
+		return
+	}
+	f := c.P.NewFuncCFG(fd)
+	ws := c.P.PkgWriteSummary(pkgRel(fo.Pkg()))
+	for j := 0; j < st.NumFields(); j++ {
+		fld := symOf(st.Field(j))
+		isAtomic := strings.HasPrefix(st.Field(j).Type().String(), "sync/atomic.")
+		if len(ws.Direct[fo][fld]) == 0 && !isAtomic {
+			continue // established by a callee: not followed
+		}
+		// sync/atomic fields are written through their Store/Swap/Add methods
+		atomicWrite := func(n ast.Node) (ast.Node, bool) {
+			var hit ast.Node
+			inspectNoLit(n, func(x ast.Node) bool {
+				call, ok := x.(*ast.CallExpr)
+				if !ok {
+					return true
+				}
+				m, ok := call.Fun.(*ast.SelectorExpr)
+				if !ok {
+					return true
+				}
+				switch m.Sel.Name {
+				case "Store", "Swap", "Add", "CompareAndSwap":
+				default:
+					return true
+				}
+				if se, ok := ast.Unparen(m.X).(*ast.SelectorExpr); ok && symOf(f.Info.ObjectOf(se.Sel)) == fld {
+					hit = se
+				}
+				return true
+			})
+			return hit, hit != nil
+		}
+		writes := map[*cfg.Block]token.Pos{}
+		type rd struct {
+			b   *cfg.Block
+			pos token.Pos
+		}
+		var reads []rd
+		for _, b := range f.G.Blocks {
+			if !b.Live {
+				continue
+			}
+			for _, n := range b.Nodes {
+				wrote := false
+				for _, w := range nodeWrites(f.Info, n, false) {
+					if w.Field == fld {
+						wrote = true
+						if p, ok := writes[b]; !ok || n.Pos() < p {
+							writes[b] = n.Pos()
+						}
+					}
+				}
+				if wrote {
+					continue
+				}
+				var skip ast.Node
+				if isAtomic {
+					if se, ok := atomicWrite(n); ok {
+						skip = se
+						if p, ok := writes[b]; !ok || n.Pos() < p {
+							writes[b] = n.Pos()
+						}
+					}
+				}
+				inspectNoLit(n, func(x ast.Node) bool {
+					if se, ok := x.(*ast.SelectorExpr); ok && x != skip && symOf(f.Info.ObjectOf(se.Sel)) == fld {
+						reads = append(reads, rd{b, se.Pos()})
+					}
+					return true
+				})
+			}
+		}
+		if len(writes) == 0 {
+			continue
+		}
+		key := fmt.Sprintf("%s.%s.reads-own-state.%s", keyBase, fo.Name(), st.Field(j).Name())
+		wblocks := map[*cfg.Block]bool{}
+		for b := range writes {
+			wblocks[b] = true
+		}
+		r := f.reach(f.Entry(), wblocks, nil)
+		bad := token.NoPos
+		for _, x := range reads {
+			if wp, ok := writes[x.b]; ok {
+				// same block: the read must come after the write; and the block must not be reachable unwritten
+				if x.pos < wp {
+					for _, p := range f.preds[x.b] {
+						if _, ok := r[p]; ok {
+							bad = x.pos
+						}
+					}
+					if x.b == f.G.Blocks[0] {
+						bad = x.pos
+					}
+				}
+				continue
+			}
+			if _, ok := r[x.b]; ok {
+				bad = x.pos
+			}
+		}
+		if bad != token.NoPos {
+			c.Fail(key, c.P.Pos(bad), fmt.Sprintf("%s reads the module's in-memory %s before establishing it: on a run resumed after a crash the module is not initialised when the stage machine calls it, so the value read is the zero value, not the one the interrupted run saw", FuncKey(fo), st.Field(j).Name()))
+		} else {
+			c.OK(key, c.P.Pos(fd.Decl.Pos()), fmt.Sprintf("%s does not read %s before establishing it", FuncKey(fo), st.Field(j).Name()))
+		}
+	}
 }
